@@ -92,6 +92,22 @@ CLAIMED = {
                  "are written only inside buffer.c (who-may-write over all 31 units). The bulk of C12 — contents and positions equal the model — is run-time data and is declined.",
          "note": STD_NOTE + " Necessary conditions only; a pass says nothing about byte contents.",
          "technique": "static analysis: dominating guards over resolved fields (K4), who-may-write (K2)"},
+ "C44": {"level": "other",
+         "text": "Typestate of the accepted descriptor in the function registered as the listener's accept callback (anchored through its event_assign registration): on "
+                 "every path from a successful evutil_accept4_ to the next accept or the exit the descriptor is handed to the user callback once or closed once (never both, "
+                 "never neither); the temporary reference around the user callback is dropped exactly once; after the callback the enabled flag is re-tested before the next "
+                 "accept; a non-retriable accept error reaches the error callback; the listening descriptor is closed only under LEV_OPT_CLOSE_ON_FREE. "
+                 "'Accepts nothing while disabled' across loop iterations is declined.",
+         "note": STD_NOTE + " Assumes the user callback takes ownership of the descriptor it receives.",
+         "technique": "static analysis: exactly-once typestate over CFG paths (K11/K1), cut-set reachability for ordering (K3), dominating guards (K4)"},
+ "C45": {"level": "other",
+         "text": "In the function that calls the backend dispatch slot: dominance ordering (prepare traversal before the wait with no timer/active-queue work in between; check "
+                 "traversal after the wait and the time-cache update and before timeout_process/event_process_active); the timeout reported to prepare watchers is the very pointer "
+                 "passed to dispatch and is not reassigned in between; both traversals advance from a cursor saved under the lock before the callback, stored where the unlinking "
+                 "code can see it, and every function that unlinks a watcher steps the cursor. Found and repaired a genuine use-after-free (watcher freed from its own callback). "
+                 "Exact once-per-iteration over add/free histories is declined.",
+         "note": STD_NOTE,
+         "technique": "static analysis: dominator/post-path ordering (K3), pointer provenance (K8), traversal-cursor safety rule over natural loops (K9)"},
 }
 
 NOT_APPLICABLE = {
